@@ -237,6 +237,13 @@ func c03CheckOpen(d *db.DB, cfg string, f *c03MapFile, resolver, ecsBind map[str
 			} else {
 				e.Family, e.SourceNetmask, e.Address = 2, uint8(p.Plen), net.IP(append([]byte{}, p.IP[:]...))
 			}
+			if e.SourceNetmask%8 != 0 && (int(p.IP[14])+int(p.IP[15])+p.Plen)%4 == 0 {
+				// address bits beyond the source length inside the last octet sent: the client's prefix is unchanged
+				e.Address[e.SourceNetmask/8] |= 0xff >> (e.SourceNetmask % 8)
+				if r != nil {
+					r.Count("b_ecs_lookups_with_bits_beyond_the_source_length", 1)
+				}
+			}
 			if mappedFam2 {
 				v4 = false // scope and defaults are expressed in the option's family
 				if r != nil {
